@@ -22,6 +22,7 @@ type Session struct {
 	participantIDs   SequentialIDGenerator
 	participantMutex sync.RWMutex
 	participants     map[uint32]*Participant
+	ended            bool
 
 	entityIDs   SequentialIDGenerator
 	entityMutex sync.RWMutex
@@ -67,18 +68,34 @@ func (s *Session) NewParticipantID() uint32 {
 	return s.participantIDs.New()
 }
 
-func (s *Session) AddParticipant(p *Participant) {
+// AddParticipant adds the given participant to the session. It returns false,
+// and adds nothing, when the session has ended: its last participant was
+// removed and it is being, or has been, removed from the session store.
+func (s *Session) AddParticipant(p *Participant) bool {
 	s.participantMutex.Lock()
 	defer s.participantMutex.Unlock()
 
+	if s.ended {
+		return false
+	}
 	s.participants[p.ID] = p
+	return true
 }
 
-func (s *Session) RemoveParticipant(p *Participant) {
+// RemoveParticipant removes the given participant from the session. It returns
+// true when the participant was the last one: the session has then ended, does
+// not take participants anymore, and it is up to the caller to remove it from
+// the session store.
+func (s *Session) RemoveParticipant(p *Participant) bool {
 	s.participantMutex.Lock()
 	defer s.participantMutex.Unlock()
 
+	if _, ok := s.participants[p.ID]; !ok {
+		return false
+	}
 	delete(s.participants, p.ID)
+	s.ended = len(s.participants) == 0
+	return s.ended
 }
 
 func (s *Session) GetParticipants() []*Participant {
